@@ -24,6 +24,7 @@ From Coq Require Import List NArith ZArith Bool Arith Lia.
 From Snow Require Import Lib.Wire Model.Encap Proofs.EncapProofs Model.CarrierLayer Proofs.CarrierProofs Proofs.CarrierOnceProofs Proofs.CarrierFragProofs.
 From Snow Require Import Proofs.CarrierMultiProofs Proofs.PacketPathProofs Proofs.PacketPathMultiProofs.
 From Snow Require Import Model.GoHeap Model.ClientMap Proofs.QueueOutProofs Model.CarrierTimed Proofs.CarrierTimedProofs Proofs.CarrierQueueProofs.
+From Snow Require Import Model.CarrierFail Proofs.CarrierFailProofs.
 Import ListNotations.
 Open Scope N_scope.
 
@@ -403,3 +404,85 @@ Proof.
     vm_compute. eexists. split; reflexivity.
   - vm_compute. repeat split.
 Qed.
+
+(* ====================================================================================== a failing downstream write
+
+   Model/CarrierFail.v: the carrier layer with one more operation, [F_SendFail i n] = carrier i's write loop takes the
+   next packet of its ClientID, n bytes of its frame reach the connection, the Write reports an error (the peer is gone,
+   the proxy was killed, ...).  [frun ops] for EVERY sequence of carrier-layer operations and failing writes, at any
+   point, on any carriers, any number of them.  Does the operation add anything?  The STATE it reaches (packet off the
+   queue, logged as lost, carrier dead) is the one S_Send reaches when WriteData itself refuses a packet, which the
+   theorems above already quantify over; what it adds is (1) that state for ORDINARY packets, i.e. at every point of
+   every history, (2) the bytes of the failed frame that did reach the wire, and (3) the explicit frame statement that
+   the step touches no other carrier - the clause a buffer that survives the failure (recycled, shared) would break. *)
+
+(* conservative: without failing writes it is the machine of all the theorems above *)
+Theorem C05_fail_machine_is_conservative : forall ops, frun (map F_Op ops) = {| f_s := srun ops; f_tail := [] |}.
+Proof. exact frun_without_failures. Qed.
+
+(* the isolation and exactly-once statements hold of the machine with failing writes *)
+Theorem C05_fail_upstream_tag : forall ops p a,
+  In (p, a) (delivered (f_s (frun ops)) ++ recvq (f_s (frun ops))) ->
+  exists i k, nth_error (carriers (f_s (frun ops))) i = Some k /\ k_cid k = a /\ In p (k_up k) /\ ~ pre_open k.
+Proof. intros ops. apply (si_up _ (proj1 (frun_inv ops))). Qed.
+
+Theorem C05_fail_downstream_only_same_id : forall ops i k p,
+  nth_error (carriers (f_s (frun ops))) i = Some k -> In p (k_down k) -> In (k_cid k, p) (accepted (f_s (frun ops))).
+Proof. intros ops. apply (si_down _ (proj1 (frun_inv ops))). Qed.
+
+Theorem C05_fail_downstream_exactly_once_in_order : forall ops c,
+  acc_for c (accepted (f_s (frun ops))) = cons_for c (consumed (f_s (frun ops))) ++ q_lookup c (sendqs (f_s (frun ops))).
+Proof. intros ops. apply (oi_fifo _ (proj2 (frun_inv ops))). Qed.
+
+(* what a carrier was written (whole packets) is exactly its own log entries: a packet logged as lost - the failed
+   write - is in NO carrier's *)
+Theorem C05_fail_carrier_gets_its_log_entries : forall ops i k,
+  nth_error (carriers (f_s (frun ops))) i = Some k -> k_down k = down_of i (consumed (f_s (frun ops))).
+Proof. intros ops. apply (oi_down _ (proj2 (frun_inv ops))). Qed.
+
+(* the step itself: the carrier was open and had a packet p queued for its ClientID; afterwards p has left the queue
+   and is logged as lost, the carrier is dead, and EVERY carrier (this one included) has been written exactly the
+   packets and whole frames it had been written before; no other queue, nothing upstream changes *)
+Theorem C05_write_failure_reaches_no_carrier : forall s i n s' t, fail_send s i n = (s', Some t) ->
+  exists k p q', nth_error (carriers s) i = Some k /\ k_state k = K_Open /\ q_lookup (k_cid k) (sendqs s) = p :: q' /\
+    t = (match write_data p with Some w => firstn n w | None => [] end) /\
+    consumed s' = consumed s ++ [(None, k_cid k, p)] /\
+    q_lookup (k_cid k) (sendqs s') = q' /\
+    (forall c, beq c (k_cid k) = false -> q_lookup c (sendqs s') = q_lookup c (sendqs s)) /\
+    accepted s' = accepted s /\ recvq s' = recvq s /\ delivered s' = delivered s /\
+    length (carriers s') = length (carriers s) /\
+    (forall j kj, nth_error (carriers s) j = Some kj ->
+       exists kj', nth_error (carriers s') j = Some kj' /\ k_down kj' = k_down kj /\ k_wire kj' = k_wire kj /\
+                   k_up kj' = k_up kj /\ k_cid kj' = k_cid kj /\
+                   k_state kj' = (if Nat.eqb j i then K_Dead else k_state kj)).
+Proof. exact fail_send_frame. Qed.
+
+(* all the bytes a carrier was ever written: the frames of the packets it was written (which decode, under any reader
+   fragmentation, to exactly those packets: wire_decodes / C05_downstream_wire), followed by nothing - or, on a carrier
+   that died of a failed write, by a prefix of the frame of ONE more packet that WriteTo accepted for the ClientID that
+   very carrier presented (and that is logged as lost).  Never a byte of another session's packet. *)
+Theorem C05_fail_wire : forall ops i k,
+  nth_error (carriers (f_s (frun ops))) i = Some k ->
+  exists (w t : bytes), wire_of (k_down k) = Some w /\ full_wire (frun ops) i k = w ++ t /\
+    (t = [] \/
+     (k_state k = K_Dead /\ exists p n, In (k_cid k, p) (accepted (f_s (frun ops))) /\
+                                        In (None, k_cid k, p) (consumed (f_s (frun ops))) /\
+                                        t = (match write_data p with Some wp => firstn n wp | None => [] end))).
+Proof. exact full_wire_spec. Qed.
+
+(* non-vacuity: session A's carrier dies of a write that failed after 2 bytes while two packets were queued for A;
+   then session B's carrier is written B's packet and nothing else; A's next carrier gets A's second packet; the
+   failed packet is in nobody's wire *)
+Example C05_fail_example :
+  let a := [1;2;3;4;5;6;7;8] in let b := [9;9;9;9;9;9;9;9] in
+  let s := frun [F_Op S_New; F_Op (S_Recv 0 (TOKEN ++ a)); F_Op (S_WriteTo a [70; 71; 72]); F_Op (S_WriteTo a [80]);
+                 F_SendFail 0 2;
+                 F_Op S_New; F_Op (S_Recv 1 (TOKEN ++ b)); F_Op (S_WriteTo b [90]); F_Op (S_Send 1);
+                 F_Op S_New; F_Op (S_Recv 2 (TOKEN ++ a)); F_Op (S_Send 2); F_Op (S_Send 0)] in
+  f_tail s = [(0%nat, [131; 70])] /\ consumed (f_s s) = [(None, a, [70; 71; 72]); (Some 1%nat, b, [90]); (Some 2%nat, a, [80])] /\
+  (exists k, nth_error (carriers (f_s s)) 0 = Some k /\ k_state k = K_Dead /\ full_wire s 0 k = [131; 70]) /\
+  (exists k, nth_error (carriers (f_s s)) 1 = Some k /\ full_wire s 1 k = [129; 90]) /\
+  (exists k, nth_error (carriers (f_s s)) 2 = Some k /\ full_wire s 2 k = [129; 80]) /\
+  fail_send (f_s (frun [F_Op S_New; F_Op (S_Recv 0 (TOKEN ++ a)); F_Op (S_WriteTo a [70; 71; 72])])) 0 2
+    = (f_s (frun [F_Op S_New; F_Op (S_Recv 0 (TOKEN ++ a)); F_Op (S_WriteTo a [70; 71; 72]); F_SendFail 0 2]), Some [131; 70]).
+Proof. vm_compute. repeat split; eexists; repeat split. Qed.
